@@ -10,6 +10,7 @@ input is the publisher's `wire`.
 -/
 import SeliumModel.Props.C14
 import SeliumModel.Client.PubSubClient
+import SeliumModel.Lemmas.Subscriber
 
 namespace Selium.Client
 open Selium Selium.Wire
@@ -291,6 +292,15 @@ theorem c03_refused_batch_loses_accepted_members :
      | .ok pf => subscriberOutputs bytesCodec noCompression pf.wire
      | _ => [.err "finish"]) = [] := by decide +kernel
 
+/-- The list-level subscriber of the fidelity theorem is what `Subscriber::poll_next` does: polled again and again
+    (self-calling or looping, whatever the frames, batches — empty ones included — and errors), the state machine of
+    `Client/Subscriber.lean` yields exactly `subscriberOutputs` of the frames it is fed, in order. -/
+theorem c03_subscriber_state_machine_refines_outputs (c : Codec α) (z : Compressor) (r : Bool) (frames : List WFrame)
+    (n : Nat) (hn : (subscriberOutputs c z frames).length < n) :
+    (Sub.drain c z r n { batch := [], script := frames.map .frame }).1 = subscriberOutputs c z frames := by
+  have := drain_spec c z r n [] frames (by simpa [Sub.pendingOutputs] using hn)
+  simpa [Sub.pendingOutputs] using this
+
 /-! Non-vacuity: batch size 3, seven strings, no compression — the case that used to come out as
     m2,m1,m0,m5,m4,m3 with m6 lost. -/
 def exItems : List (Bool × Bytes) := (List.range 7).map fun i => (false, [UInt8.ofNat (65 + i)])
@@ -311,4 +321,5 @@ end Selium.Client
 #print axioms Selium.Client.flush_inv
 #print axioms Selium.Client.send_inv
 #print axioms Selium.Client.c03_fidelity_partial
+#print axioms Selium.Client.c03_subscriber_state_machine_refines_outputs
 #print axioms Selium.Client.c03_refused_batch_loses_accepted_members
